@@ -680,17 +680,42 @@ Proof.
   - apply in_remove_node in Hn. apply (H n u (proj1 Hn) Hu Hid).
 Qed.
 
+Lemma good_create : forall r x t sg, good r -> mentions x r = false ->
+  good (with_nodes r (put_node (nodes r) {| n_id := x; n_mdate := t; n_sig := sg |})).
+Proof.
+  intros r x t sg [G1 G2 G3 G4] Hg. constructor; unfold with_nodes; cbn [nodes tombs edges etombs]; try assumption.
+  - apply nodup_ids_put. exact G1.
+  - intros n u Hn Hu Hid. unfold put_node in Hn. destruct Hn as [<-|Hn].
+    + cbn [n_id] in Hid. exfalso. apply (mentions_false _ _ Hg u Hu Hid).
+    + apply in_remove_node in Hn. apply (G3 n u (proj1 Hn) Hu Hid).
+Qed.
+Lemma good_create_rows : forall sgs r x t, good r -> snd (create_rows r x t sgs) = false -> good (fst (create_rows r x t sgs)).
+Proof.
+  induction sgs as [|sg sgs IH]; intros r x t G Hg; cbn [create_rows] in *; [exact G|].
+  destruct (create_rows (with_nodes r (put_node (nodes r) {| n_id := x; n_mdate := t; n_sig := sg |})) (x + 1)%N t sgs) as [r' g] eqn:E.
+  cbn [fst snd] in *. apply Bool.orb_false_iff in Hg. destruct Hg as [H1 H2].
+  specialize (IH (with_nodes r (put_node (nodes r) {| n_id := x; n_mdate := t; n_sig := sg |})) (x + 1)%N t (good_create r x t sg G H1)).
+  rewrite E in IH. cbn [fst snd] in IH. apply IH. exact H2.
+Qed.
+Lemma create_rows_fields : forall sgs r x t,
+  tombs (fst (create_rows r x t sgs)) = tombs r /\ edges (fst (create_rows r x t sgs)) = edges r /\
+  etombs (fst (create_rows r x t sgs)) = etombs r /\ (nodup_ids (nodes r) -> nodup_ids (nodes (fst (create_rows r x t sgs)))).
+Proof.
+  induction sgs as [|sg sgs IH]; intros r x t; cbn [create_rows]; [repeat split; auto|].
+  specialize (IH (with_nodes r (put_node (nodes r) {| n_id := x; n_mdate := t; n_sig := sg |})) (x + 1)%N t).
+  destruct (create_rows (with_nodes r (put_node (nodes r) {| n_id := x; n_mdate := t; n_sig := sg |})) (x + 1)%N t sgs) as [r' g].
+  cbn [fst] in *. unfold with_nodes in IH. cbn [nodes tombs edges etombs] in IH. destruct IH as [A [B [C D]]].
+  repeat split; try assumption. intros H. apply D. apply nodup_ids_put. exact H.
+Qed.
+
 (* every step inside the envelope preserves: one row per id, one record per key, no row at or below a
    held deletion record *)
 Lemma step_good : forall S o, good_sys S -> snd (step S o) = false -> good_sys (fst (fst (step S o))).
 Proof.
-  intros S o H Hg. destruct o as [p x t sg|p x t sg|p x t|p x y t sg|p x y t sg|d s days]; cbn [step] in *.
-  - cbn [fst snd] in *. apply good_set; [exact H|]. destruct (H p) as [G1 G2 G3 G4].
-    constructor; unfold with_nodes; cbn [nodes tombs edges etombs]; try assumption.
-    + apply nodup_ids_put. exact G1.
-    + intros n u Hn Hu Hid. unfold put_node in Hn. destruct Hn as [<-|Hn].
-      * cbn [n_id] in Hid. exfalso. apply (mentions_false _ _ Hg u Hu Hid).
-      * apply in_remove_node in Hn. apply (G3 n u (proj1 Hn) Hu Hid).
+  intros S o H Hg. destruct o as [p x t sg|p x0 t sgs|p x t sg|p x t|p x y t sg|p x y t sg|d s days]; cbn [step] in *.
+  - cbn [fst snd] in *. apply good_set; [exact H|]. apply good_create; [apply H|exact Hg].
+  - pose proof (good_create_rows sgs (get p S) x0 t (H p)) as GC.
+    destruct (create_rows (get p S) x0 t sgs) as [r g]. cbn [fst snd] in *. apply good_set; [exact H|]. apply GC. exact Hg.
   - destruct (find_node x (nodes (get p S))) as [e|] eqn:F; cbn [fst snd] in *; [|exact H].
     apply good_set; [exact H|]. destruct (H p) as [G1 G2 G3 G4].
     apply find_node_some in F. destruct F as [Fin Fid].
